@@ -11,13 +11,16 @@ b=json.load(open('/root/.vp/BASELINE.json'))
 stable=set(b['stable_pass'])
 root=ET.parse(sys.argv[1]).getroot()
 res={}
+msgs={}
 for tc in root.iter('testcase'):
     name=f"{tc.get('classname')}::{tc.get('name')}"
     bad=any(ch.tag in('failure','error') for ch in tc)
+    if bad:
+        msgs[name]=" | ".join((ch.get('message') or '')[:300] for ch in tc if ch.tag in('failure','error'))
     skipped=any(ch.tag=='skipped' for ch in tc)
     res[name]='fail' if bad else ('skip' if skipped else 'pass')
 missing=[s for s in stable if res.get(s)!='pass']
 print("stable:",len(stable),"not passing:",len(missing))
-for m in sorted(missing)[:40]: print("  ",m,res.get(m))
+for m in sorted(missing)[:40]: print("  ",m,res.get(m), msgs.get(m,""))
 PY
 rm -f $OUT
